@@ -619,7 +619,9 @@ impl<'a> VisitMut for WrapPass<'a> {
         let en = norm(&e.to_token_stream().to_string());
         let mut hit: Option<usize> = None;
         for (i, sp) in self.specs.iter_mut().enumerate() {
-            if !sp.used && norm(&sp.mtch) == en {
+            let pat = norm(&sp.mtch);
+            let is_match = if let Some(prefix) = pat.strip_suffix("...") { en.starts_with(prefix) } else { pat == en };
+            if !sp.used && is_match {
                 if sp.seen == sp.nth { sp.used = true; hit = Some(i); }
                 sp.seen += 1;
             }
@@ -631,7 +633,10 @@ impl<'a> VisitMut for WrapPass<'a> {
             let m = self.markers.mk(&self.specs[i].text.clone());
             let inner = e.clone();
             let mstmt = Stmt::Expr(Expr::Verbatim(quote!(#m)), None);
-            let mut blk: ExprBlock = parse_quote!({ let #name = #inner; #name });
+            let mut blk: ExprBlock = parse_quote!({ let #name = __vx_placeholder; #name });
+            if let Stmt::Local(l) = &mut blk.block.stmts[0] {
+                if let Some(init) = &mut l.init { *init.expr = inner; }
+            }
             blk.block.stmts.insert(1, mstmt);
             *e = Expr::Block(blk);
         }
